@@ -126,4 +126,39 @@ pub open spec fn comps_roundtrip(s: Seq<Comp>) -> bool {
     forall|k: int| 0 <= k < s.len() ==> (#[trigger] s[k] is Normal || s[k] is ParentDir)
 }
 
+// ---- Path::parent ----
+pub open spec fn parent_comps<'a>(s: Seq<Comp<'a>>) -> Option<Seq<Comp<'a>>> {
+    if s.len() == 0 || s.last() is RootDir || s.last() is Prefix { None } else { Some(s.drop_last()) }
+}
+pub assume_specification<'a>[ std::path::Path::parent ](p: &'a std::path::Path) -> (r: Option<&'a std::path::Path>)
+    ensures
+        (r is Some) == (parent_comps(path_comps(p)) is Some),
+        r is Some ==> path_comps(r->0) == parent_comps(path_comps(p))->0;
+
+// ---- rendering of a relative path (`..`s and normal components) as text: components joined by `/` (unix) ----
+pub uninterp spec fn os_lossy<'a>(c: Comp<'a>) -> Seq<char>;   // text of a Normal component (to_string_lossy of its OsStr)
+pub broadcast axiom fn axiom_os_lossy_nonempty<'a>(c: Comp<'a>)
+    requires c is Normal
+    ensures (#[trigger] os_lossy(c)).len() > 0;
+pub open spec fn comp_str<'a>(c: Comp<'a>) -> Seq<char> {
+    match c { Comp::ParentDir => ".."@, Comp::CurDir => "."@, Comp::Normal(_) => os_lossy(c), _ => "/"@ }
+}
+pub open spec fn render_rel<'a>(s: Seq<Comp<'a>>) -> Seq<char>
+    decreases s.len()
+{
+    if s.len() == 0 { Seq::<char>::empty() }
+    else if s.len() == 1 { comp_str(s[0]) }
+    else { comp_str(s[0]) + "/"@ + render_rel(s.drop_first()) }
+}
+pub uninterp spec fn cow_str_view<'a>(c: std::borrow::Cow<'a, str>) -> Seq<char>;
+pub assume_specification<'a>[ std::path::Path::to_string_lossy ](p: &'a std::path::Path) -> (r: std::borrow::Cow<'a, str>)
+    ensures comps_roundtrip(path_comps(p)) ==> cow_str_view(r) == render_rel(path_comps(p));
+pub broadcast axiom fn axiom_display_cow<'a>(c: &std::borrow::Cow<'a, str>)
+    ensures #[trigger] display_view::<std::borrow::Cow<'a, str>>(c) == cow_str_view(*c);
+pub broadcast axiom fn axiom_string_from_cow_obeys<'a>()
+    ensures #[trigger] <String as vstd::std_specs::convert::FromSpec<std::borrow::Cow<'a, str>>>::obeys_from_spec();
+pub broadcast axiom fn axiom_string_from_cow<'a>(c: std::borrow::Cow<'a, str>)
+    ensures (#[trigger] <String as vstd::std_specs::convert::FromSpec<std::borrow::Cow<'a, str>>>::from_spec(c))@ == cow_str_view(c);
+pub broadcast group group_cow_str { axiom_display_cow, axiom_string_from_cow_obeys, axiom_string_from_cow }
+
 } // verus!
